@@ -69,6 +69,9 @@ def overlay_map(hname, native=False, scratch=None):
             if f.endswith("_test.go") and not native:
                 continue
             ov[os.path.join(REPO, meta["pkg"], f)] = os.path.join(hdir, f)
+    # shared harness files from other harness directories, same package
+    for inc in meta.get("include", []):
+        ov[os.path.join(REPO, meta["pkg"], os.path.basename(inc))] = os.path.join(VERIF, "harness", inc)
     # extra harness files placed in other repo packages: {"file": "pkgdir"}
     for f, pdir in meta.get("extra_files", {}).items():
         ov[os.path.join(REPO, pdir, os.path.basename(f))] = os.path.join(hdir, f)
